@@ -424,6 +424,60 @@ def check_body(M, FP, rec, rng, cfg, body, cls, bnd, expected, case_base):
             rec.violation("C01/parser-short-read:" + classify_high(exp_high, got), f"short={k}: expected {exp_high!r} got {got!r}", case)
             break
     rec.observe("parser_short_read_streams", 4)
+    # the entry points an application really calls: parse_form_data(environ), FormDataParser.parse_from_environ and
+    # Request.form / .files, over a wsgi.input that hands out k bytes per read
+    for k in (1, 3, 64 * 1024):
+        for entry in ("parse_form_data", "parse_from_environ", "Request"):
+            rec.case()
+            got = parse_environ(FP, body, bnd, k, entry)
+            rec.nontrivial(hash((bid, "environ", k, entry)) & 0xFFFFFFFFFFFFFFFF)
+            case = dict(case_base, mode="environ-entry-point", short=k, entry=entry)
+            if got != exp_high:
+                rec.violation("C01/environ-entry-point:" + classify_high(exp_high, got), f"{entry}, {k} bytes per read: expected {exp_high!r} got {got!r}", case)
+                return
+    rec.observe("environ_entry_point_parses", 9)
+
+
+class EnvReader:
+    """wsgi.input as PEP 3333 describes it: read(size) only, k bytes at most per call."""
+
+    def __init__(self, data, k):
+        self.data, self.k, self.pos = data, k, 0
+
+    def read(self, n=-1):
+        if n is None or n < 0:
+            n = len(self.data)
+        out = self.data[self.pos:self.pos + min(n, self.k)]
+        self.pos += len(out)
+        return out
+
+
+def parse_environ(FP, body, boundary, k, entry):
+    try:
+        bq = boundary.decode("latin-1").replace("\\", "\\\\").replace('"', '\\"')
+        env = {"REQUEST_METHOD": "POST", "CONTENT_TYPE": f'multipart/form-data; boundary="{bq}"', "CONTENT_LENGTH": str(len(body)),
+               "wsgi.input": EnvReader(body, k), "wsgi.url_scheme": "http", "SERVER_NAME": "h", "SERVER_PORT": "80", "PATH_INFO": "/", "SCRIPT_NAME": "", "QUERY_STRING": ""}
+        if entry == "parse_form_data":
+            stream, form, files = FP.parse_form_data(env, silent=False)
+        elif entry == "parse_from_environ":
+            stream, form, files = FP.FormDataParser(silent=False).parse_from_environ(env)
+        else:
+            from werkzeug.wrappers import Request
+
+            class R(Request):
+                max_form_memory_size = None
+                max_form_parts = None
+
+            r = R(env)
+            form, files = r.form, r.files
+        res = [["field", k_, None, v.encode("utf-8", "surrogateescape")] for k_, v in form.items(multi=True)]
+        fl = []
+        for k_, f in files.items(multi=True):
+            fl.append(["file", k_, f.filename, f.stream.read()])
+            f.close()
+        return res, fl
+    except Exception as e:  # noqa: BLE001
+        return ("EXC", type(e).__name__, str(e)[:200])
 
 
 def classify_high(exp, got):
